@@ -56,6 +56,19 @@ impl HandlerErased for OwnQuery {
             .build())
     }
 }
+/// Echoes the body under a query of its own choosing (C05: a response that already carries
+/// a query when the server frames it).
+struct OwnQueryEcho;
+impl HandlerErased for OwnQueryEcho {
+    fn handle(&self, req: &Message) -> Result<Message, RepeError> {
+        Ok(Message::builder()
+            .id(req.header.id)
+            .query_str("/the/handler/chose/this/query")
+            .body_bytes(req.body.clone())
+            .body_format_code(req.header.body_format)
+            .build())
+    }
+}
 struct PlainEcho(Arc<Counters>);
 impl HandlerErased for PlainEcho {
     fn handle(&self, req: &Message) -> Result<Message, RepeError> {
@@ -149,6 +162,7 @@ pub fn build_router(c: &Arc<Counters>, n_middleware: u32, mw_first: bool) -> Rou
     });
     r = r.with_erased_handler("/custom/own", Arc::new(OwnQuery(c.clone())));
     r = r.with_erased_handler("/custom/plain", Arc::new(PlainEcho(c.clone())));
+    r = r.with_erased_handler("/custom/ownecho", Arc::new(OwnQueryEcho));
     r = r.with_erased_handler("/custom/err", Arc::new(FailingErased(c.clone())));
     let reg = Arc::new(Registry::new());
     reg.register_value("/counter", json!(7)).unwrap();
